@@ -672,6 +672,7 @@ def case_setitem(prog, A, kv, rhs, key_style="letter", subset_pos=None, taint_mo
         y = w.array("y", rl, dimobjs=dimobjs)
         val = y
         inputs.append(y)
+        src = y.f["values"]         # the target must not end up sharing memory with the source array either (e.g. a transposed view of it)
         yt = y.f["values"].term
         vt = t_sum({vkey(w.items(e)) for e in extra}, yt)
     snaps = w.snap(*inputs)
@@ -695,7 +696,7 @@ def case_setitem(prog, A, kv, rhs, key_style="letter", subset_pos=None, taint_mo
         if src is not None:
             v = x.f["values"]
             shared = isinstance(v, AArr) and (v is src or v.buf is src.buf)
-            case.v("copied", not shared, "the assigned ndarray is stored without a copy: later changes to it reach the target")
+            case.v("copied", not shared, "the assigned ndarray / the source array's values are stored without a copy: later changes to one reach the other")
     common_checks(case, w, inputs, snaps, kind, r, inplace_target=x)
     return finish(case, w)
 
@@ -1354,7 +1355,32 @@ def case_stock_ctor(prog, cls_name, A, which, how, taint_mode="abort"):
     return finish(case, w)
 
 
+def case_to_stock_type(prog, A, override, taint_mode="abort"):
+    """Stock.to_stock_type with keyword arguments: whatever it does with them (it may refuse a keyword that names an attribute the stock
+    already has), the ORIGINAL stock keeps its own arrays, name and dims"""
+    w = World(prog, taint_mode)
+    case = Case("stock-ctor", "to_stock_type", "Stock.to_stock_type", {"op": "to_stock_type(SimpleFlowDrivenStock, **kwargs)", "dims": list(A), "kwargs": override})
+    SA = prog.cls("StockArray")
+    comps = {c: w.array(c, A, cls=SA) for c in ("stock", "inflow", "outflow")}
+    kind0, st = run_guarded(lambda: w.it.construct(prog.cls("SimpleFlowDrivenStock"), [], dict(dims=w.dimset(A), time_letter="t", name="original", **comps)))
+    if kind0 != "ok":
+        return None
+    other = w.array("other", A, cls=SA)
+    kw = {"name": {"name": "converted"}, "inflow": {"inflow": other}, "none": {}}[override]
+    before = {k: st.f.get(k) for k in ("stock", "inflow", "outflow", "name", "process")}
+    snaps = w.snap(st.f["stock"], st.f["inflow"], st.f["outflow"], other)
+    kind, r = run_guarded(lambda: w.it.call(w.it.get_attr(st, "to_stock_type"), [prog.cls("SimpleFlowDrivenStock")], dict(kw)))
+    same = all(st.f.get(k) is v or st.f.get(k) == v for k, v in before.items())
+    case.v("purity", same, f"to_stock_type({', '.join(kw) or 'no keywords'}) replaced attributes of the original stock "
+                           f"({', '.join(k for k, v in before.items() if not (st.f.get(k) is v or st.f.get(k) == v))})")
+    common_checks(case, w, [st.f["stock"], st.f["inflow"], st.f["outflow"], other], snaps, kind, r if kind != "ok" else None)
+    return finish(case, w)
+
+
 def stock_ctor_cases(prog, taint_mode="abort"):
+    for A in [("t",), ("t", "a")]:
+        for override in ("none", "name", "inflow"):
+            yield lambda A=A, o=override: case_to_stock_type(prog, A, o, taint_mode)
     for cls_name in STOCK_CLASSES:
         if cls_name not in prog.classes:
             continue
